@@ -203,10 +203,11 @@ def run_values_at_points(case):
             elif row != ():
                 raise Violation("values-at-points", f"point {tm}: got {row}, expected () (no sample at that time in {data})")
         else:
-            best = min(abs(Fraction(r[0]) - Fraction(tm)) for r in data)
-            if row not in data or abs(Fraction(row[0]) - Fraction(tm)) != best:
-                raise Violation("values-at-points-fuzzy", f"point {tm}: got {row}, nearest distance is {float(best)} in {sorted(data)}")
-            if len([r for r in data if abs(Fraction(r[0]) - Fraction(tm)) == best]) > 1:
+            # distances as any floating-point implementation sees them (|3.4-2.0| and |2.0-0.6| are the same double)
+            best = min(abs(r[0] - tm) for r in data)
+            if row not in data or abs(row[0] - tm) != best:
+                raise Violation("values-at-points-fuzzy", f"point {tm}: got {row}, nearest distance is {best} in {sorted(data)}")
+            if len([r for r in data if abs(r[0] - tm) == best]) > 1:
                 cl.add("tie")
             cl.add("fuzzy")
     return {"classes": sorted(cl), "nontrivial": bool(cl)}
@@ -234,6 +235,13 @@ def run_overlap(case):
     pct, tt, incl = case["pct"], case["tt"], case["incl"]
     got = p.utils.intervalOverlapCheck(p.Interval(a[0], a[1], "x"), p.Interval(b[0], b[1], "y"), pct, tt, incl)
     want = model_overlap(a, b, pct, tt, incl)
+    # an overlap that equals a threshold up to rounding (0.25/2.5 vs 0.1) may be classified either way
+    ov = max(Fraction(0), min(Fraction(a[1]), Fraction(b[1])) - max(Fraction(a[0]), Fraction(b[0])))
+    if ov > 0:
+        total = max(Fraction(a[1]), Fraction(b[1])) - min(Fraction(a[0]), Fraction(b[0]))
+        eps = Fraction(1, 10**12)
+        if (pct > 0 and abs(ov / total - Fraction(pct)) <= eps * Fraction(pct)) or (tt > 0 and abs(ov - Fraction(tt)) <= eps * Fraction(tt)):
+            return {"classes": ["threshold_borderline"], "nontrivial": False}
     if bool(got) != want:
         raise Violation("overlap-check" + (":both-thresholds" if pct > 0 and tt > 0 else ""),
                         f"intervalOverlapCheck({a},{b},percent={pct},time={tt},inclusive={incl}) = {got}, expected {want}")
